@@ -11,6 +11,7 @@ func init() {
 	vRegister("HarnessC07_clean", HarnessC07_clean)
 	vRegister("HarnessC07_required", HarnessC07_required)
 	vRegister("HarnessC07_hidden", HarnessC07_hidden)
+	vRegister("HarnessC07_outputs", HarnessC07_outputs)
 	vRegister("HarnessC07_encode", HarnessC07_encode)
 	vRegister("HarnessC07_latin1", HarnessC07_latin1)
 }
@@ -189,6 +190,60 @@ func HarnessC07_hidden() {
 	vObserve("out", outs[0])
 	vAssert("C07.hidden.out", vEq(outs[0], map[string]any{"v": 1}))
 	vCover("hidden.checked")
+}
+
+// HarnessC07_outputs: the same question for every way a subtree can become
+// an output document: an explicit $output: true map, an explicit output
+// below an ancestor hidden by $output: false (root or inner), a list selected
+// by a marker entry, nested selections. Whenever evaluation succeeds, no
+// emitted document holds a marker; a bare $required inside an emitted subtree
+// always fails the evaluation.
+func HarnessC07_outputs() {
+	n := 3
+	if vTier() > 0 {
+		n = 5
+	}
+	pos := ndChoice(5)
+	pos2 := (pos + 1 + ndChoice(2)*2) % 5
+	tok := c07Tokens[ndChoice(len(c07Tokens))]
+	s := ndStr(n, "print")
+	vAssume(!vContains(s, "$$"))
+	vAssume(vAnd(s != "m", vAnd(s != "l", s != "x"))) // the skeleton's own keys
+	sub := c06Skeleton(pos, s, pos2, tok, func() any { return 7 }).(map[string]any)
+	w := ndChoice(5)
+	var tree any
+	switch w {
+	case 0: // explicit output
+		sub["$output"] = true
+		tree = map[string]any{"keep": 1, "svc": sub}
+	case 1: // explicit output below a hidden root
+		sub["$output"] = true
+		tree = map[string]any{"$output": false, "svc": sub}
+	case 2: // explicit output below a hidden inner map
+		sub["$output"] = true
+		tree = map[string]any{"keep": 1, "h": map[string]any{"$output": false, "svc": sub}}
+	case 3: // a list selected by a marker entry, below a hidden root
+		tree = map[string]any{"$output": false, "l": []any{map[string]any{"$output": true}, sub}}
+	default: // nested selections
+		sub["$output"] = true
+		tree = map[string]any{"$output": false, "o": map[string]any{"$output": true, "svc": sub, "y": 2}}
+	}
+	vObserve("tree", tree)
+	outs, err := c06Eval(vCopy(tree))
+	vObserve("err", err != nil)
+	if tok == "$required" && pos2 != 0 && pos2 != 2 {
+		// a bare $required as a value or list entry of the emitted subtree
+		vAssert("C07.outputs.required", err != nil)
+	}
+	if err != nil {
+		vCover("outputs.rejected")
+		return
+	}
+	vCover("outputs.accepted")
+	vObserve("outs", outs)
+	for _, o := range outs {
+		vAssert("C07.outputs.clean", c07Clean(o))
+	}
 }
 
 // HarnessC07_encode: a marker inside an $encode subtree makes evaluation
